@@ -147,6 +147,25 @@ def consistency(ctx: Ctx):
     return g1
 
 
+def dup_with_flipped_selector(kind):
+    def f(r):
+        s_ = find_all(r, "ContainerSet")[0]
+        referenced = {e.attrs["attrib"].get("containerRef") for e in all_elements(s_)}
+        sel = lambda k: [e for e in all_elements(k) if e.attrs["tag"].endswith(kind) and "parameterRef" in e.attrs["attrib"]  # noqa: E731
+                         and any(a.attrs["tag"].endswith("RestrictionCriteria") for a in e.attrs["iterancestors"]())]
+        for k in reversed([k for k in s_.attrs["__children__"] if is_elem(k)]):
+            if k.attrs["attrib"].get("name") in referenced or not sel(k):
+                continue            # a leaf: no other container names it as its base or nests it
+            c = clone(k)
+            e = sel(c)[0]
+            cur = e.attrs["attrib"].get("useCalibratedValue", "true").lower()
+            e.attrs["attrib"]["useCalibratedValue"] = "false" if cur == "true" else "true"
+            append(s_, c)
+            return None
+        return False
+    return f
+
+
 def corruptions(g1):
     """(description, corrupted document, expectation) ; expectation 'reject' | 'consistent'."""
     out = []
@@ -200,6 +219,9 @@ def corruptions(g1):
         ld.attrs["__parent__"] = c
         c.attrs["__children__"].insert(0, ld)
     mut("leaf container duplicated with another LongDescription", dup("ContainerSet", 3, other_long_description))
+
+    mut("leaf container duplicated with useCalibratedValue flipped in a restriction Comparison", dup_with_flipped_selector("Comparison"))
+    mut("leaf container duplicated with useCalibratedValue flipped in a restriction Condition operand", dup_with_flipped_selector("ParameterInstanceRef"))
     mut("container duplicated identically", dup("ContainerSet", 4), "consistent-or-reject")
 
     def delete(setname, name):
@@ -265,6 +287,22 @@ def corruption_table(ctx: Ctx, g1):
             else:
                 bad = graph_consistency(ctx, got, site)
                 ctx.decide(bad is None, "R17.c", site, "tolerated; graph stays consistent", f"`{desc}` is accepted but the graph is inconsistent: {bad}")
+    # the hand-written document (leaf containers restricted by comparison lists): a duplicate that differs only in the selector
+    # of one comparison is a conflicting duplicate
+    from ..xmlmodel import parse_text
+    site = f"{LOAD}::corruption::hand-written document: leaf container duplicated with useCalibratedValue flipped in a Comparison"
+    try:
+        doc = parse_text(X.third_text())
+        if dup_with_flipped_selector("Comparison")(doc) is False:
+            ctx.unknown("R17.c", site, "no leaf container with a Comparison found")
+        else:
+            attach_nsmap(doc)
+            kind, got = try_load(X.harness(prog), doc)
+            ctx.decide(kind == "raise", "R17.c", site, f"rejected at load ({got})" if kind == "raise" else "",
+                       "a document with two containers of one name that differ in the useCalibratedValue of a restriction comparison loads without error "
+                       "(the first definition silently wins)")
+    except Unsupported as e:
+        ctx.unknown("R17.c", site, str(e))
     # what a load decides does not depend on earlier loads in the same process: after a load that was rejected half-way, a
     # document with a deleted definition is still rejected and the valid document still loads consistently
     cs = {d: (doc, ex) for d, doc, ex in corruptions(g1)}
@@ -436,7 +474,8 @@ SPEC = PropSpec(
                  "graph stays consistent. R17.1 structural: every registry insert is dominated by a membership test. "
                  "R17.3: inheritor lists have one writer; mutable dataclass defaults are factories."
                  ' Graph variants include unconditional inheritance and a forward-referenced diamond (a container nested directly and through another nested container).'
-                 ' After a load that was rejected half-way, documents with deleted definitions are still rejected and the valid document still loads consistently; the same through load_xml and a path whose file changed; an unused parameter must still name a defined type.'),
+                 ' After a load that was rejected half-way, documents with deleted definitions are still rejected and the valid document still loads consistently; the same through load_xml and a path whose file changed; an unused parameter must still name a defined type.'
+                 ' Duplicates that differ only in a short or long description are conflicting duplicates.'),
     rule_doc="R17.g per element order; R17.c per corruption; R17.1 per registry insert; R17.3 per writer/default",
     assumptions=["lxml ElementPath semantics as modelled", "cycles are rejected through Python's recursion limit (RecursionError)"],
     mutants=mutants,
